@@ -630,6 +630,174 @@ _PROFILES = [
 ]
 
 
+# --------------------------------------------------------------------------------------
+# The connection-level handshake loop (AIOKafkaConnection._do_sasl_handshake) and replays
+# --------------------------------------------------------------------------------------
+
+class _Ready:
+    """Awaitable that is already done (what run_in_executor / send return in the stub connection)."""
+
+    def __init__(self, value=None, exc=None):
+        self.value, self.exc = value, exc
+
+    def __await__(self):
+        if self.exc is not None:
+            raise self.exc
+        return self.value
+        yield  # pragma: no cover
+
+
+class _ReadyLoop:
+    def run_in_executor(self, executor, fn, *args):
+        try:
+            return _Ready(fn(*args))
+        except BaseException as e:
+            return _Ready(exc=e)
+
+
+HS_KINDS = ["hs_honest", "hs_wrong_sig", "hs_empty_final", "hs_empty_first", "hs_none_final", "hs_error_reply",
+            "hs_garbage_final", "hs_replay"]
+
+
+def _run_handshake(case, server):
+    """Runs the real _do_sasl_handshake coroutine on a stub connection whose send()/_send_sasl_token() are
+    answered by `server(payload) -> bytes | None | ('error', code, msg)`.  -> (completed, exception)"""
+    from aiokafka.conn import AIOKafkaConnection
+    v1 = case["k"] % 2 == 0          # SaslAuthenticateRequest framing vs raw tokens
+
+    class Conn:
+        _do_sasl_handshake = AIOKafkaConnection._do_sasl_handshake
+        authenticator_scram = AIOKafkaConnection.authenticator_scram
+
+        def __init__(self):
+            self._loop = _ReadyLoop()
+            self._sasl_mechanism = case["mech"]
+            self._security_protocol = "SASL_PLAINTEXT"
+            self._sasl_plain_username = case["user"]
+            self._sasl_plain_password = case["pw"]
+            self.closed = None
+            self.sasl_principal = None
+
+        def close(self, reason=None, exc=None):
+            self.closed = (reason, exc)
+
+        def send(self, request):
+            name = type(request).__name__
+            if "HandShake" in name:
+                return _Ready(types.SimpleNamespace(error_code=0, enabled_mechanisms=[case["mech"]],
+                                                    API_VERSION=1 if v1 else 0))
+            payload = getattr(request, "_payload", None)
+            if payload is None:
+                payload = getattr(request, "payload", None)
+            ans = server(payload)
+            if isinstance(ans, tuple):
+                return _Ready(types.SimpleNamespace(error_code=ans[1], error_message=ans[2], sasl_auth_bytes=b""))
+            return _Ready(types.SimpleNamespace(error_code=0, error_message=None, sasl_auth_bytes=ans))
+
+        def _send_sasl_token(self, payload, expect_response=True):
+            ans = server(payload)
+            if isinstance(ans, tuple):
+                return _Ready(exc=ConnectionError("broker closed the connection: %s" % (ans[2],)))
+            return _Ready(ans)
+
+    conn = Conn()
+    coro = conn._do_sasl_handshake()
+    try:
+        coro.send(None)
+    except StopIteration:
+        return True, None, conn
+    except HarnessError:
+        raise
+    except Exception as e:
+        return False, e, conn
+    coro.close()
+    raise HarnessError("_do_sasl_handshake suspended on something the stub connection does not provide")
+
+
+def execute_handshake(case):
+    out = Outcome()
+    mech = case["mech"]
+    hname = MECHS[mech]
+    user, pw, salt, iters, kind, snonce = case["user"], case["pw"], case["salt"], case["iters"], case["kind"], case["snonce"]
+    out.label("handshake_loop", kind, mech)
+    out.nontrivial = kind != "hs_honest"
+    account = Account(hname, pw, salt, iters)
+    ctx = {"kind": kind, "mech": mech, "framing": "SaslAuthenticate" if case["k"] % 2 == 0 else "raw token"}
+    st = {"n": 0, "rejected": None, "transcript": []}
+
+    def honest_server(payload, tamper=None):
+        st["n"] += 1
+        try:
+            if st["n"] == 1:
+                gs2, bare, cnonce = server_parse_client_first(payload, user)
+                st.update(gs2=gs2, bare=bare, cnonce=cnonce, full=cnonce + snonce)
+                st["server_first"] = make_server_first(st["full"], salt, iters)
+                ans = st["server_first"].encode("utf-8")
+                if tamper == "hs_empty_first":
+                    ans = b""
+            elif st["n"] == 2:
+                auth_message, _ = server_verify_client_final(payload, account, st["gs2"], st["bare"], st["server_first"], st["full"])
+                sig = server_signature(account, auth_message)
+                ans = ("v=" + _b64(sig)).encode("utf-8")
+                if tamper == "hs_wrong_sig":
+                    ans = ("v=" + _b64(bytes([sig[0] ^ 1]) + sig[1:])).encode("utf-8")
+                elif tamper == "hs_empty_final":
+                    ans = b""
+                elif tamper == "hs_none_final":
+                    ans = None
+                elif tamper == "hs_garbage_final":
+                    ans = b"x=" + _b64(sig).encode("ascii")
+                elif tamper == "hs_error_reply":
+                    ans = ("error", 58, "Authentication failed")
+            else:
+                ans = b""
+        except Reject as rj:
+            st["rejected"] = (rj.site, rj.why)
+            ans = ("error", 58, rj.why)
+        st["transcript"].append(ans)
+        return ans
+
+    if kind == "hs_replay":
+        # an honest login is recorded; a party that does not know the password then answers a NEW login of the same
+        # user by replaying the recorded server messages verbatim
+        ok, exc, _ = _run_handshake(case, honest_server)
+        if not ok:
+            out.fail("server_accepts", "handshake_loop:honest_login_failed", dict(ctx, error=_err(exc), rejected=st["rejected"]))
+            return out
+        recorded = list(st["transcript"])
+        first_nonce = st["cnonce"]
+        st2 = {"n": 0, "cnonce": None}
+
+        def replay_server(payload):
+            st2["n"] += 1
+            if st2["n"] == 1:
+                try:
+                    st2["cnonce"] = server_parse_client_first(payload, user)[2]
+                except Reject:
+                    pass
+            return recorded[st2["n"] - 1] if st2["n"] <= len(recorded) else b""
+        ok2, exc2, _ = _run_handshake(case, replay_server)
+        if st2["cnonce"] is not None and st2["cnonce"] == first_nonce:
+            out.fail("completes_iff_server_knows", "handshake_loop:client_nonce_reused", dict(ctx, nonce=first_nonce))
+        if ok2:
+            out.fail("completes_iff_server_knows", "handshake_loop:accepted:replayed_server_messages", ctx)
+        return out
+
+    tamper = None if kind == "hs_honest" else kind
+    ok, exc, conn = _run_handshake(case, lambda payload: honest_server(payload, tamper))
+    if kind == "hs_honest":
+        if not ok:
+            out.fail("server_accepts", "handshake_loop:honest_login_failed", dict(ctx, error=_err(exc), rejected=st["rejected"]))
+    elif ok:
+        out.fail("completes_iff_server_knows", "handshake_loop:accepted:" + kind[3:], dict(ctx, server_messages=st["n"]))
+    out.info = {"completed": ok, "error": _err(exc) if exc else None, "server_messages": st["n"]}
+    return out
+
+
+def _strat_handshake():
+    return _strat(HS_KINDS)
+
+
 def _alt_salts(salt):
     flipped = bytes([salt[0] ^ 1]) + salt[1:]
     return [flipped, salt + b"\x00", salt[::-1] + b"!" if len(salt) < 64 else salt[1:]]
@@ -755,4 +923,6 @@ def campaigns(tier):
                  examples=60000 if thorough else 2000),
         Campaign("tamper_random", "hyp", execute=execute, strategy=lambda: _strat(TAMPER_KINDS),
                  examples=120000 if thorough else 4000),
+        Campaign("handshake_loop", "hyp", execute=execute_handshake, strategy=_strat_handshake,
+                 examples=20000 if thorough else 1600),
     ]
